@@ -1,7 +1,7 @@
 #!/usr/bin/env python3
 """Rewrites the generated tables of DESIGN.md §0.4 (per-property state) and §0.5 (seeded changes)
 from checks/*.json, evidence/*.json, known findings and seeded/*/meta.json."""
-import json, os, glob, re
+import glob, json, os, glob, re
 R = os.path.dirname(os.path.abspath(__file__))
 props = [json.loads(l) for l in open(os.path.join(R, "properties.jsonl"))]
 man = json.load(open(os.path.join(R, "MANIFEST.json")))
@@ -66,5 +66,11 @@ def put(t, name, body):
     return t[:t.index(a) + len(a)] + "\n" + body + t[t.index(b):]
 t = put(t, "PROPTABLE", tab1)
 t = put(t, "SEEDTABLE", tab2)
+nc = ["| property | not covered by theorem or stage |", "|---|---|"]
+for pid in sorted(os.path.basename(f)[:3] for f in glob.glob(os.path.join(R, "notes", "C*.manifest.json"))):
+    o = json.load(open(os.path.join(R, "notes", pid + ".manifest.json")))
+    if o.get("not_covered"):
+        nc.append(f"| {pid} | {o['not_covered'].replace('|', '/')} |")
+t = put(t, "NOTCOVERED", "\n".join(nc) + "\n")
 open(dp, "w").write(t)
 print("tables updated")
